@@ -25,7 +25,7 @@ PROBES = ["free_worker_with_open_task", "gate_opened_FS", "gate_opened_SS", "ss_
 
 
 def budget(tier):
-    return 8000 if tier == "quick" else 2500000
+    return 14000 if tier == "quick" else 2500000
 
 
 def gen(rng, tier):
